@@ -52,10 +52,10 @@ mod vk_counter {
         let s = st();
         kani::cover!(s.n == 1, "one atomic operation");
         assert!(s.n == 1 && s.log[0].kind == 2, "[C19 C07 C01 ctr-clone-atomic] cloning a counter reads it with exactly one atomic load and never writes it (other threads may be pulling from the original)");
-        assert!(*e.current.get_mut() == s.log[0].ret, "[C19 ctr-clone] a cloned counter starts at the value that load returned");
+        assert!((*e.current.get_mut()) as usize == s.log[0].ret, "[C19 ctr-clone] a cloned counter starts at the value that load returned");
     }
 
-    // @harness name=counter_new_clone props=C19,C04 kind=complete
+    // @harness name=counter_new_clone props=C19,C04,C01,C02,C16 kind=complete
     #[kani::proof]
     fn counter_new_clone() {
         let c = AtomicCounter::new();
@@ -64,6 +64,11 @@ mod vk_counter {
         assert!(d.current() == 0, "[C04 C19 ctr-new] a default counter starts at 0");
         let v: usize = kani::any();
         c.store(v);
+        assert!(c.current() == v, "[C04 C01 C02 C16 ctr-width] the counter holds every usize value it is given (positions are usize: a narrower counter wraps early)");
+        let n: usize = kani::any();
+        let f = AtomicCounter::new();
+        f.store(v);
+        assert!(f.fetch_and_add(n) == v && f.current() == v.wrapping_add(n), "[C04 C01 C02 C16 ctr-width] fetch_and_add returns the previous value and adds in usize arithmetic");
         let e = c.clone();
         kani::cover!(v > 0, "non-zero");
         assert!(e.current() == v && c.current() == v, "[C19 ctr-clone] a cloned counter starts at the original's value and leaves it unchanged");
